@@ -18,7 +18,8 @@ Line-protocol driver for the C03 models (model files only).
       → `outcome=<done|maxiter> modules=<m,..> seq=<m>:<u,..>;… prev=<t,..> err=<notes>`
   W <path events>   see Model/FsWatch.lean:  W d=<p>:<mtime>:<size>:<hash>;… f=<p>:<mtime>:<size>:<hash>;… w=<p,..>
       → `changed=<p,..> data=<p>:<mtime>:<size>:<hash>;…`
-  M s=<m>:<p>;… p=<m>:<p>;… c=<p,..>     `Server._find_changed(sources, changed_paths)` with previous_sources = p
+  M rule=<new|old> s=<m>:<p>;… p=<m>:<p>;… c=<p,..>     `Server._find_changed(sources, changed_paths)` with previous_sources = p;
+      rule = which version of the function the checked tree has (probed by the harness on the stub-removal input)
       → `changed=<m>:<p>;… removed=<m>:<p>;…`
 -/
 open FineGrained
@@ -239,7 +240,7 @@ def showPairs (l : List (Nat × Nat)) : String :=
 
 def runM (line : String) : String :=
   let parts := (line.splitOn " ").filter (!·.isEmpty)
-  let r := FsWatch.changedModules (parsePairs (field parts "s")) (parsePairs (field parts "p")) (natList (field parts "c"))
+  let r := FsWatch.changedModules (field parts "rule" != "old") (parsePairs (field parts "s")) (parsePairs (field parts "p")) (natList (field parts "c"))
   s!"changed={showPairs r.1} removed={showPairs r.2}"
 
 def step (line : String) : String :=
